@@ -29,7 +29,7 @@ func c14Sweep(c *Ctx) {
 	if !c.Anchor("R14.1", "zap.SugaredLogger.sweetenFields", fn != nil && len(fn.Params) == 2) {
 		return
 	}
-	name := fn.String()
+	name := FStr(fn)
 	args := fn.Params[1]
 	resolve := func(st *ConcState, v ssa.Value) ssa.Value {
 		v = stripConv(v)
@@ -154,8 +154,8 @@ func c14Sweep(c *Ctx) {
 		MaxIter: depth(3, 4), Cut: &cut, MaxStates: 2000000,
 		Inline: func(h *ssa.Function) bool {
 			// the logger's own Error method is an effect, not part of the sweep
-			return h.Pkg != nil && h.Pkg.Pkg.Path() == ZapPath && !strings.HasPrefix(h.String(), "(*go.uber.org/zap.Logger).") &&
-				h.Name() != "Any" && h.Name() != "Error" && h.Name() != "Array"
+			return h.Pkg != nil && h.Pkg.Pkg.Path() == ZapPath && !strings.HasPrefix(FStr(h), "(*go.uber.org/zap.Logger).") &&
+				FNm(h) != "Any" && FNm(h) != "Error" && FNm(h) != "Array"
 		},
 		Event: func(in ssa.Instruction, st *ConcState) string {
 			switch x := in.(type) {
@@ -218,7 +218,7 @@ func c14Sweep(c *Ctx) {
 				}
 				if IsCallTo(x, "(*go.uber.org/zap.Logger).Error", "(*go.uber.org/zap.Logger).DPanic", "(*go.uber.org/zap.Logger).Warn", "(*go.uber.org/zap.Logger).Info", "(*go.uber.org/zap.Logger).Debug") {
 					a := Args(x)
-					lvl := CalleeFunc(x).Name()
+					lvl := FNm(CalleeFunc(x))
 					msg := "?"
 					if s, ok := ConstString(resolve(st, a[1])); ok {
 						msg = s
